@@ -1,16 +1,21 @@
 /-
 C19 — executable model, entry point of the line protocol.
 `C19Base`: nested-list addressing of sketches, shapes, stacks (rounds 1–5);
+`C19Sk`:   index structures of the sketch classes, `get_slice`, `Stack.chop` computed from the regenerated source text;
 `C19Geo`:  the point generator of `Grid`, `TransformedStack` for any sketch / transformation, `ExtrudedStack` over ℚ, `Stack.chop`.
 -/
 import CBV.Model.C19Base
 import CBV.Model.C19Geo
+import CBV.Model.C19Sk
 
 namespace CBV.C19
 
 def handle (op : String) (args : List String) : Option String :=
   match handleBase op args with
   | some r => some r
-  | none => handleGeo op args
+  | none =>
+    match handleGeo op args with
+    | some r => some r
+    | none => handleSk op args
 
 end CBV.C19
